@@ -88,14 +88,18 @@ def symbolic_case(rng):
         in_decomp = {id(f)}
     x00 = pep.set_initial_point()
     y00 = pep.set_initial_point()
-    startkind = rng.choice(["leaf", "combination", "evaluated"])
+    startkind = rng.choice(["leaf", "combination", "evaluated", "alias_of_evaluated"])
     if startkind == "leaf":
         x0 = x00
     elif startkind == "combination":
         x0 = x00 - 0.5 * y00
-    else:
+    elif startkind == "evaluated":
         x0 = x00
         target.oracle(x0)
+    else:
+        # the same point as an already evaluated leaf, written as a combination (x00 + 0*y00, (x00+y00)-y00, 2*x00/2)
+        target.oracle(x00)
+        x0 = rng.choice([lambda: x00 + 0 * y00, lambda: (x00 + y00) - y00, lambda: 2 * x00 / 2])()
     gamma = rng.choice([1.0, 0.5, 2.0, 1e-3, 0.0 if step not in ("inexact_proximal", "bregman_gradient", "bregman_proximal") else 0.7, 10.0])
     if step == "inexact_proximal" and gamma == 0.0:
         gamma = 0.3
@@ -136,11 +140,14 @@ def symbolic_case(rng):
                            (eps == 0 and opt == "relative" and len(new_c) == 1)))
         spec_cons = None   # judged above
         nb = before[id(target)][1]
-        if not (len(target.list_of_points) - nb <= 1):
-            F("step_records_extra_samples:inexact_gradient", "inexact_gradient_step recorded %d samples on f (at most the one at x0 expected)" % (len(target.list_of_points) - nb))
+        already = any(pkey(P.of(t[0])) == pkey(P0) for t in target.list_of_points[:nb])
+        allowed = 0 if (already and target.reuse_gradient) else 1
+        if len(target.list_of_points) - nb > allowed:
+            F("step_records_extra_samples:inexact_gradient", "inexact_gradient_step recorded %d new sample(s) on f, at most %d expected "
+              "(f %s evaluated at that point before, reuse_gradient=%s)" % (len(target.list_of_points) - nb, allowed, "was" if already else "was not", target.reuse_gradient))
         spec_samples = None
     elif step == "exact_linesearch":
-        dirs = [y00, x00 - y00][:rng.randint(0, 2)]
+        dirs = rng.choice([[y00, x00 - y00], [x00 + y00, x00 - y00], [y00, 2 * y00], [x00 - y00, y00 - x00, x00], [y00]])[:rng.randint(0, 3)]
         dirs_copy = list(dirs)
         x, gx, fx = ps.exact_linesearch_step(x0, target, dirs)
         ret_checks.append(("x fresh leaf", x.get_is_leaf() and _pos(Point.list_of_leaf_points, x) >= np0))
